@@ -126,6 +126,16 @@ pub fn run() -> i32 {
     corpus.into_inner().unwrap().flush().unwrap();
     ctx.note("second_reference_corpus", json!(corpus_path));
     ctx.absorb("kdf", st);
+    {
+        let mut t: Vec<crate::purity::Entry> = vec![];
+        let names = ["kdf#0", "kdf#1", "kdf#2", "kdf#3", "kdf#4", "kdf#5", "kdf#6", "kdf#7"];
+        for (i, (len, id, ci, ki)) in [(16usize, 0u64, 0usize, 0usize), (32, 0, 0, 0), (32, 1, 0, 0), (32, 0, 2, 0), (32, 0, 0, 3), (64, u64::MAX, 1, 2), (33, 1 << 40, 4, 3), (17, 7, 2, 1)].into_iter().enumerate() {
+            let c = cs[ci];
+            let key: [u8; 32] = karr(seed ^ 0x12, ki);
+            t.push((names[i], Box::new(move || derive(len, id, &c, &key).ok().flatten().unwrap_or_default())));
+        }
+        crate::purity::triples(&mut ctx, "C12", "C12.kdf", t);
+    }
     ctx.require_outcome("kdf==libsodium");
     ctx.require_outcome("kdf-rejects-length");
     ctx.finish()
